@@ -178,7 +178,7 @@ def drive(rec):
     return t
 
 
-def molecules(rng):
+def molecules(rng, nrand=3):
     """Base configurations on the integer grid (multiples of 81 units of 1/16200 A = 0.005 A)."""
     def q(x):
         return int(round(x * UNIT / 81.0)) * 81
@@ -188,7 +188,7 @@ def molecules(rng):
               (1, (-0.4, -0.5, -0.9)), (1, (3.1, -0.9, 0.3))]
     out.append([{"z": z, "p": [q(v) for v in p]} for z, p in water])
     out.append([{"z": z, "p": [q(v) for v in p]} for z, p in acetic])
-    for _ in range(3):
+    for _ in range(nrand):
         n = rng.randint(3, 8)
         atoms = []
         while len(atoms) < n:
@@ -223,7 +223,7 @@ def run(ctx):
     words = sorted({s[2:] for s in res.printed if s.startswith("W|")})
     ctx.notes["tlc_words"] = len(words)
     rng = ctx.rng
-    mols = molecules(rng)
+    mols = molecules(rng, ctx.pick(3, 10))
     recs = []
     lmaxes = ctx.pick([4, 6, 9, 12], [4, 5, 6, 7, 8, 9, 10, 11, 12])
     for mi, inner in enumerate(mols):
@@ -237,7 +237,7 @@ def run(ctx):
                         continue
                     pool = [w for w in words if (kind == "stockholder" or "E:" not in w)]
                     # exterior swaps / translations need an environment
-                    sel = rng.sample(pool, min(len(pool), ctx.pick(8, 30)))
+                    sel = rng.sample(pool, min(len(pool), ctx.pick(8, 60)))
                     ws = [parse_word(w) for w in sel]
                     ws = [w for w in ws if all(not (tag == "P" and arg >= len(inner)) for tag, arg in w)]
                     recs.append({"lmax": lmax, "kind": kind, "channel": channel, "words": ws,
@@ -246,10 +246,10 @@ def run(ctx):
     traces = pool_map(drive, recs, chunksize=1)
     ctx.notes["descriptor_evaluations"] = sum(len(t["poses"]) for t in traces)
     ctx.validate("trace/Trace_Descriptor.tla", traces, timeout=1800)
-    ctx.rule = ("5 molecules (water, an acetic-acid-like 8-atom molecule, 3 seeded 3-8 atom molecules) with and without a dense 160-atom environment shell x "
+    ctx.rule = ("water, an acetic-acid-like 8-atom molecule and 3 (thorough: 10) seeded 3-8 atom molecules, with and without a dense 160-atom environment shell x "
                 "{promolecule_density_descriptor, Molecule.shape_descriptors, stockholder_weight_descriptor} x {none, d_norm, esp} x l_max in %s; each "
                 "trace applies %d pose words printed by TLC (depth <= %d over 6 translations up to 50 A, 3 cube-rotation generators, 6 rational "
-                "quaternion rotations, adjacent transpositions of interior and exterior atoms); every trace is non-trivial" % (lmaxes, ctx.pick(8, 30), depth))
+                "quaternion rotations, adjacent transpositions of interior and exterior atoms); every trace is non-trivial" % (lmaxes, ctx.pick(8, 60), depth))
     ctx.explanation = ("relational oracle: the descriptor at every pose equals the identity-pose descriptor within Tol(word class, l_max); the pose itself, the "
                        "radial equation and the out-of-bounds outcome are checked exactly / with explicit slack; pose words are enumerated by TLC, molecules sampled")
     ctx.assumptions = ["TolExact = 5e-3 for translation/permutation words (measured <= 2.5e-4), TolRot = 0.15 / 0.10 / 0.08 for l_max <= 6 / <= 9 / > 9 "
